@@ -118,10 +118,11 @@ type Sim struct {
 	Steps     int
 	Branching int // task decisions with >= 2 ready tasks
 	Stalls    int
-	Forced    int // picks forced by the fairness bound
-	Parks     int // long preemptions injected (ParkPermille)
-	Pauses    int // single-task pauses injected (PausePermille)
-	MapOps    int // instrumented accesses to shared maps
+	stalled   time.Duration // simulated time spent in stalls so far
+	Forced    int           // picks forced by the fairness bound
+	Parks     int           // long preemptions injected (ParkPermille)
+	Pauses    int           // single-task pauses injected (PausePermille)
+	MapOps    int           // instrumented accesses to shared maps
 	// Races: unordered conflicting accesses to one map (see MapOp), by map expression
 	Races      map[string]string
 	maps       map[uintptr]*mapState
@@ -1000,11 +1001,16 @@ func (s *Sim) loop() {
 				return
 			}
 		}
-		if s.opts.StallPermille > 0 {
+		// (at most 12 x StallMax of stalls per run: the number of scheduling
+		// steps of a run is the simulator's business - it grew when scheduling
+		// points were added - and must not decide how much simulated time a
+		// request takes)
+		if s.opts.StallPermille > 0 && s.stalled < 12*s.opts.StallMax {
 			if v := s.St.Biased(8, 1000-s.opts.StallPermille, "stall"); v > 0 {
 				// leave every ready task unscheduled while time advances
 				d := s.opts.StallMax * time.Duration(v) / 7
 				if d > 0 {
+					s.stalled += d
 					s.Stalls++
 					time.Sleep(d)
 					select {
